@@ -269,6 +269,8 @@ def shapes_for_empty_apply():
                 out.append(("c02", c02.make_spec(kinds, c02.FUNCS[fi], labs)))
     for term in c03.TERMS:
         for follow in c03.FOLLOW:
+            if term == "jccnext" and follow not in ("same", "other"):
+                continue
             for callers in (0, 1):
                 for fn in (True, False):
                     out.append(("c03", c03.make_spec(term, follow, callers, fn)))
